@@ -219,6 +219,7 @@ class Actor:
         self.blocked_on = None
         self.op_count = 0
         self.fds: dict[int, dict] = {}
+        self.dirfds: dict[int, str] = {}  # descriptors of directories OUTSIDE the root (openat-style walks start at "/")
         self.outcome = None  # returned | raised | killed | interrupted
         self.result = None
         self.exc = None
@@ -647,6 +648,8 @@ class Simulation:
             if fd not in a.fds:
                 if a.dead:
                     raise SimKilled()
+                if name == "close":
+                    a.dirfds.pop(fd, None)
                 return _call_real(fn, *args, **kw)
             path = a.fds[fd]["path"]
             if name == "write":
@@ -676,8 +679,11 @@ class Simulation:
                         return p_
                     info_ = a.fds.get(dfd)
                     if info_ is None:
-                        raise LookupError("dir_fd not opened through the seam")
-                    return info_["path"].rstrip("/") + "/" + p_
+                        base_ = a.dirfds.get(dfd)
+                        if base_ is None:
+                            raise LookupError("dir_fd not opened through the seam")
+                        return os.path.normpath(base_.rstrip("/") + "/" + p_) if p_ not in (".", "") else base_
+                    return (info_["path"].rstrip("/") + "/" + p_) if p_ not in (".", "") else info_["path"]
 
                 try:
                     path = _at(first, kw.get("dir_fd") if name not in ("replace", "rename", "link") else kw.get("src_dir_fd"))
@@ -707,7 +713,12 @@ class Simulation:
                 if self.record_unscoped:
                     self.unscoped.append((a.id, nm, path, path2))
                 self._jail(a, nm, path)
-                return _call_real(fn, *args, **kw)
+                res_ = _call_real(fn, *args, **kw)
+                if name == "open" and isinstance(res_, int):
+                    fl_ = args[1] if len(args) > 1 else kw.get("flags", 0)
+                    if fl_ & (os.O_DIRECTORY | getattr(os, "O_PATH", 0)):
+                        a.dirfds[res_] = path
+                return res_
             if name == "open":
                 flags = args[1] if len(args) > 1 else kw.get("flags", 0)
                 detail = flags
